@@ -12,6 +12,8 @@ flattened lists fold from the left).
 namespace SaVerif.Expr
 open SaExpr
 
+variable [Abs]
+
 def litVal : Lit → Val
   | .int i => .int i
   | .str s => .str s
@@ -48,49 +50,89 @@ def foldVals (op : Op) : List Val → Val
   | [] => .null
   | v :: vs => vs.foldl (binVal op) v
 
+/-- `CAST(x AS <type name of the dialect>)`; a dialect that skips the CAST leaves the value -/
+def castVal (d : Dialect) (ty : Ty) (v : Val) : Val :=
+  match Gen.castName d ty with
+  | some n => Abs.castF n v
+  | none => v
+
+/-- value of a CASE from the values of its parts -/
+def caseVal (noValue : Bool) (v : Val) (ws : List Val) (noElse : Bool) (e : Val) : Val :=
+  let items := ws ++ (if noElse then [] else [e])
+  if noValue then caseSearchedVal items else caseSimpleVal v items
+
 mutual
-def evalCore (env : String → Val) : SaExpr → Val
+def evalCore (env : String → Val) (d : Dialect) : SaExpr → Val
   | .col n _ => env n
   | .bind v _ => litVal v
   | .null => .null
   | .true_ => .int 1
   | .false_ => .int 0
-  | .binary op l r _ _ _ => binVal op (evalCore env l) (evalCore env r)
-  | .clist op cs _ _ _ => foldVals op (evalCoreList env cs)
-  | .unary op e _ => unVal op (evalCore env e)
-  | .grouping e => evalCore env e
+  | .binary op l r _ _ _ => binVal op (evalCore env d l) (evalCore env d r)
+  | .clist op cs _ _ _ => foldVals op (evalCoreList env d cs)
+  | .unary op e _ => unVal op (evalCore env d e)
+  | .grouping e => evalCore env d e
+  | .subq n _ => env n
+  | .func n args _ => fnVal n (evalCoreList env d args)
+  | .cast e ty => castVal d ty (evalCore env d e)
+  | .case_ v ws e _ =>
+    caseVal (isAbsent v) (evalCore env d v) (evalCoreList env d ws) (isAbsent e) (evalCore env d e)
   | _ => .null
-def evalCoreList (env : String → Val) : List SaExpr → List Val
+def evalCoreList (env : String → Val) (d : Dialect) : List SaExpr → List Val
   | [] => []
-  | e :: es => evalCore env e :: evalCoreList env es
+  | e :: es => evalCore env d e :: evalCoreList env d es
 end
 
-/-- meaning of a numeric API-call tree -/
-def evalNumU (env : String → Val) : U → Val
-  | .col n _ => env n
-  | .li i => .int i
-  | .ln _ => .null
-  | .bin k a b => binVal k.op (evalNumU env a) (evalNumU env b)
-  | .neg a => unVal .neg (evalNumU env a)
-  | _ => .null
+def isAbsentU : U → Bool
+  | .absent => true
+  | _ => false
 
 mutual
+/-- meaning of a numeric API-call tree -/
+def evalNumU (env : String → Val) (d : Dialect) : U → Val
+  | .col n _ => env n
+  | .subq n _ => env n
+  | .li i => .int i
+  | .ln _ => .null
+  | .bin k a b => binVal k.op (evalNumU env d a) (evalNumU env d b)
+  | .neg a => unVal .neg (evalNumU env d a)
+  | .cast ty a => castVal d ty (evalNumU env d a)
+  | .coalesce cs => coalesceVal (evalNumUList env d cs)
+  | .case_ v ws e =>
+    -- a missing `else_` is NULL (`evalNumU .absent`)
+    if isAbsentU v then evalSearched env d ws (evalNumU env d e)
+    else evalSimple env d (evalNumU env d v) ws (evalNumU env d e)
+  | _ => .null
+def evalNumUList (env : String → Val) (d : Dialect) : List U → List Val
+  | [] => []
+  | u :: us => evalNumU env d u :: evalNumUList env d us
+/-- searched CASE: the result of the first pair whose condition is TRUE, else `e` -/
+def evalSearched (env : String → Val) (d : Dialect) : List U → Val → Val
+  | c :: r :: rest, e =>
+    if evalBoolU env d c = some true then evalNumU env d r else evalSearched env d rest e
+  | _, e => e
+/-- simple CASE: the result of the first pair whose value equals `v`, else `e` -/
+def evalSimple (env : String → Val) (d : Dialect) (v : Val) : List U → Val → Val
+  | c :: r :: rest, e =>
+    if evalCmp .eq v (evalNumU env d c) = some true then evalNumU env d r
+    else evalSimple env d v rest e
+  | _, e => e
 /-- meaning of a boolean API-call tree -/
-def evalBoolU (env : String → Val) : U → TV
+def evalBoolU (env : String → Val) (d : Dialect) : U → TV
   | .bin k a b =>
     (match b with
      | .null =>
        -- `x == None` / `x.is_(None)` mean IS NULL, `x != None` / `x.is_not(None)` IS NOT NULL
-       if k = .eq ∨ k = .is_ then evalCmp .is_ (evalNumU env a) .null
-       else evalCmp .is_not (evalNumU env a) .null
-     | _ => evalCmp k.op (evalNumU env a) (evalNumU env b))
-  | .not_ a => not3 (evalBoolU env a)
-  | .and_ cs => andAll (evalBoolUList env cs)
-  | .or_ cs => orAll (evalBoolUList env cs)
+       if k = .eq ∨ k = .is_ then evalCmp .is_ (evalNumU env d a) .null
+       else evalCmp .is_not (evalNumU env d a) .null
+     | _ => evalCmp k.op (evalNumU env d a) (evalNumU env d b))
+  | .not_ a => not3 (evalBoolU env d a)
+  | .and_ cs => andAll (evalBoolUList env d cs)
+  | .or_ cs => orAll (evalBoolUList env d cs)
   | _ => none
-def evalBoolUList (env : String → Val) : List U → List TV
+def evalBoolUList (env : String → Val) (d : Dialect) : List U → List TV
   | [] => []
-  | u :: us => evalBoolU env u :: evalBoolUList env us
+  | u :: us => evalBoolU env d u :: evalBoolUList env d us
 end
 
 end SaVerif.Expr
